@@ -11,7 +11,8 @@
                              handlePing, handleNewProxy/RegisterProxy, handleCloseProxy, worker (teardown),
                              heartbeatWorker
    The NewWorkConn plugin chain is an oracle argument of the event (verification runs on ITS output, as in the
-   code); the Login / Ping / NewProxy hooks are the identity here (C15 owns the chain). *)
+   code); the Login chain likewise (oracle au_lplug; RegisterControl acts on its output); the Ping / NewProxy hooks are the
+   identity here (C15 owns the chain). *)
 From FRP Require Export Model.Bytes.
 Open Scope Z_scope.
 
@@ -253,9 +254,20 @@ Section Auth.
     | AuPlugReject => None
     end.
 
+  (* outcome of pluginManager.Login on a Login content (handleConnection calls it for EVERY Login, on every listener,
+     before RegisterControl): unchanged, content replaced (any field: user, run id, key, client_spec ...), or rejected *)
+  Inductive au_lplug := AuLPlugSame | AuLPlugRewrite (l : au_login) | AuLPlugReject.
+
+  Definition au_lplug_apply (p : au_lplug) (l : au_login) : option au_login :=
+    match p with
+    | AuLPlugSame => Some l
+    | AuLPlugRewrite l' => Some l'
+    | AuLPlugReject => None
+    end.
+
   (* first message on a fresh connection (handleConnection's type switch) *)
   Inductive au_first :=
-  | AuFLogin (l : au_login)
+  | AuFLogin (l : au_login) (plug : au_lplug)
   | AuFWorkConn (rid key : bytes) (ts : Z) (plug : au_plug)
   | AuFVisitor (rid : bytes) (vm_ok : bool)   (* vm_ok: VisitorManager.NewConn's verdict (C08's subject), an oracle here *)
   | AuFOther (ty : Z).                        (* any other registered message type (its type byte) *)
@@ -276,6 +288,7 @@ Section Auth.
 
   Inductive au_refusal :=
   | AuRLogin (e : au_verr)          (* LoginResp{Error}, connection closed *)
+  | AuRLoginPlugin                  (* LoginResp{Error} (Login plugin chain refused), connection closed *)
   | AuRWorkUnknownRun               (* connection closed, nothing sent *)
   | AuRWorkAuth (e : au_verr)       (* StartWorkConn{Error}, connection closed *)
   | AuRWorkPlugin                   (* StartWorkConn{Error} (plugin chain refused), connection closed *)
@@ -317,25 +330,29 @@ Section Auth.
   Definition au_step_first (s : au_state) (internal : bool) (conn now : Z) (gen : bytes) (m : au_first)
     : au_state * au_out :=
     match m with
-    | AuFLogin l0 =>
-        (* RegisterControl *)
-        let l := au_effective_login l0 gen in
-        let v := au_choose_verifier internal (al_spec l) in
-        match au_verify_login c v (at_subjects s) now l with
-        | AuVErr e => (s, AuORefused (AuRLogin e))
-        | AuVOk subj =>
-            let x := {| as_sid := at_next s; as_rid := al_rid l; as_login := l; as_internal := internal;
-                        as_verifier := v; as_last_ping := now; as_pool := [];
-                        as_pool_cap := au_pool_cap c (al_pool l); as_proxies := [] |} in
-            (* ctlManager.Add: an old Control under the same run id is Replaced (closed) and
-               RegisterControl waits for its teardown before the new one starts *)
-            let s1 := match au_find_rid (al_rid l) (at_sessions s) with
-                      | Some old => au_teardown s old
-                      | None => s
-                      end in
-            ({| at_sessions := x :: at_sessions s1; at_pxys := at_pxys s1;
-                at_subjects := subj; at_next := at_next s + 1 |},
-             AuOLoginOk (al_rid l) (at_next s))
+    | AuFLogin l00 lplug =>
+        (* handleConnection: Login plugin chain first; RegisterControl acts on what the chain returned *)
+        match au_lplug_apply lplug l00 with
+        | None => (s, AuORefused AuRLoginPlugin)
+        | Some l0 =>
+            let l := au_effective_login l0 gen in
+            let v := au_choose_verifier internal (al_spec l) in
+            match au_verify_login c v (at_subjects s) now l with
+            | AuVErr e => (s, AuORefused (AuRLogin e))
+            | AuVOk subj =>
+                let x := {| as_sid := at_next s; as_rid := al_rid l; as_login := l; as_internal := internal;
+                            as_verifier := v; as_last_ping := now; as_pool := [];
+                            as_pool_cap := au_pool_cap c (al_pool l); as_proxies := [] |} in
+                (* ctlManager.Add: an old Control under the same run id is Replaced (closed) and
+                   RegisterControl waits for its teardown before the new one starts *)
+                let s1 := match au_find_rid (al_rid l) (at_sessions s) with
+                          | Some old => au_teardown s old
+                          | None => s
+                          end in
+                ({| at_sessions := x :: at_sessions s1; at_pxys := at_pxys s1;
+                    at_subjects := subj; at_next := at_next s + 1 |},
+                 AuOLoginOk (al_rid l) (at_next s))
+            end
         end
     | AuFWorkConn rid key0 ts0 plug =>
         (* Service.RegisterWorkConn: run id lookup, plugin chain, verification of what the CHAIN returned,
@@ -453,7 +470,11 @@ Section Auth.
   (* does the event address session x (its run id for first messages, its Control for later ones)? *)
   Definition au_addresses (e : au_event) (x : au_session) : bool :=
     match e with
-    | AuEFirst _ _ _ gen (AuFLogin l0) => bytes_eqb (al_rid (au_effective_login l0 gen)) (as_rid x)
+    | AuEFirst _ _ _ gen (AuFLogin l00 lplug) =>
+        match au_lplug_apply lplug l00 with
+        | Some l0 => bytes_eqb (al_rid (au_effective_login l0 gen)) (as_rid x)
+        | None => false
+        end
     | AuEFirst _ _ _ _ (AuFWorkConn rid _ _ _) => bytes_eqb rid (as_rid x)
     | AuEFirst _ _ _ _ _ => false
     | AuELater sid _ _ => sid =? as_sid x
@@ -467,3 +488,33 @@ Section Auth.
     | _ => false
     end.
 End Auth.
+
+(* ---- what go-oidc's verifier checks under a configured policy (the auth.oidc block), as far as frp configures it ----------
+   NewTokenVerifier: oidc.Config{ClientID: audience, SkipClientIDCheck: audience == "", SkipExpiryCheck, SkipIssuerCheck}.
+   A token is described by facts the harness knows by construction; the signature is always checked. *)
+Record au_oidc_policy := { aop_audience : bytes; aop_skip_expiry : bool; aop_skip_issuer : bool }.
+Record au_token_facts := {
+  atf_sig_ok : bool;        (* signed by a key of the configured issuer's JWKS *)
+  atf_sub : bytes;
+  atf_iss_ok : bool;        (* iss claim equals the configured issuer *)
+  atf_aud : bytes;          (* aud claim (single audience) *)
+  atf_valid_until : Z       (* first time at which exp has passed *)
+}.
+
+Definition au_oidc_policy_verify (p : au_oidc_policy) (t : au_token_facts) (now : Z) : option bytes :=
+  if negb (atf_sig_ok t) then None
+  else if negb (aop_skip_issuer p || atf_iss_ok t) then None
+  else if negb (match aop_audience p with [] => true | a => bytes_eqb a (atf_aud t) end) then None
+  else if negb (aop_skip_expiry p || (now <? atf_valid_until t)) then None
+  else Some (atf_sub t).
+
+(* the oracle induced by a policy and a description of the tokens in play *)
+Definition au_oidc_of_policy (p : au_oidc_policy) (tab : bytes -> option au_token_facts) (k : bytes) (now : Z) : option bytes :=
+  match tab k with Some t => au_oidc_policy_verify p t now | None => None end.
+
+(* a token the policy must reject at time now *)
+Definition au_token_unacceptable (p : au_oidc_policy) (t : au_token_facts) (now : Z) : bool :=
+  negb (atf_sig_ok t) ||
+  (negb (aop_skip_issuer p) && negb (atf_iss_ok t)) ||
+  (match aop_audience p with [] => false | a => negb (bytes_eqb a (atf_aud t)) end) ||
+  (negb (aop_skip_expiry p) && (atf_valid_until t <=? now)).
